@@ -29,7 +29,8 @@ META = {
     "explanation": "Necessary structural conditions of 'as soon / as late as possible': a booking attempt in every visited "
                    "slot, unit cursor stride, injective shift-invariant period index for limit counters, a backward cursor "
                    "that backs up only over non-working slots. The universally quantified statement about all free slots "
-                   "is NOT decided.",
+                   "is NOT decided."
+                   " Also: C04's backward-bound rules, the selection table of the container end handed down the tree and its start at every root, memo-key soundness of the calendar code, task identity by local id, and the handling of a deadline inside a slot (known finding F49).",
     "assumptions": [],
 }
 
